@@ -98,9 +98,15 @@ Definition run_sync (need : nat) : sx :=
        ofB (match gst filled with GWaiting => true | _ => false end);
        ofB (match cst s' with CIdle => true | _ => false end) ].
 
+(* mode 3: Circuit.AssignLevels(TargetGMW) alone (deep AND chains):
+   input = (3 dims gates), output = (Gate.Level per gate, Stats[NumLevels]) *)
+Definition run_levels (c : circuit) : sx :=
+  SL [ ofLnat (gate_levels c); ofnat (num_levels c) ].
+
 Definition run_c10 (inp : sx) : sx :=
   let mode := getnat (nthx 0 inp) in
   if mode =? 2 then run_sync (getnat (nthx 1 inp)) else
+  if mode =? 3 then run_levels (circuit_of_sx (nthx 1 inp) (nthx 2 inp)) else
   let c := circuit_of_sx (nthx 1 inp) (nthx 2 inp) in
   let isz := getLnat (nthx 3 inp) in
   let n := length isz in
